@@ -112,7 +112,8 @@ void harness_wl_parse_accept(void) {
     secp256k1_context ctx; wla_in_t in = nondet_wla_in(); secp256k1_whitelist_signature sig; unsigned char out[WLEN + 8]; size_t ol, i; int ret;
     verif_ctx_init(&ctx);
     in.in[0] = K;
-    ret = secp256k1_whitelist_signature_parse(&ctx, &sig, in.in, WLEN);
+    { EXACT(xin, in.in, WLEN);
+    ret = secp256k1_whitelist_signature_parse(&ctx, &sig, xin, WLEN); }
     __CPROVER_assert(ret == 1, "parse accepts count byte + 32*(count+1) bytes");
     __CPROVER_assert(secp256k1_whitelist_signature_n_keys(&sig) == K, "n_keys reported");
     ol = in.ol; __CPROVER_assume(ol <= WLEN + 8);
